@@ -8,6 +8,7 @@ import (
 	"os"
 	"sync"
 
+	"verif/props/core"
 	"verif/props/proto"
 	"verif/simnet"
 )
@@ -257,9 +258,18 @@ var RF = &proto.RTFamily{ID: "C10", Gen: genRT, Check: func(it *proto.RTItem, r 
 }, Bound: func(string) int { return 1 }}
 
 func init() {
-	F.ExtraCount = RF.Count
-	F.ExtraRun = RF.Run
+	F.ExtraCount = func(tier string) int { return RF.Count(tier) + len(sinkCases) }
+	F.ExtraRun = func(tier string, idx int, r *core.ScnResult) {
+		if n := RF.Count(tier); idx >= n {
+			runSinkScn(idx-n, r)
+			return
+		}
+		RF.Run(tier, idx, r)
+	}
 	F.ExtraReplay = func(scn json.RawMessage, choices []int) (string, bool, bool) {
+		if s, ok, mine := replaySink(scn); mine {
+			return s, ok, true
+		}
 		var w struct {
 			RT json.RawMessage `json:"rt"`
 		}
